@@ -137,6 +137,16 @@ PROPS = {
             "Go contexts: a derived context is cancelled when its parent is",
         ],
     },
+    "C17": {
+        "lean_modules": ["JrpcProofs.Props.C17", "JrpcProofs.Facts.Keepalive", "JrpcProofs.Facts.Corr"],
+        "assumptions": [
+            "G (largest gap between peer activities seen by this endpoint) and E (local latency between an activity, or a passed deadline, and the library acting on it; includes the time the main loop spends reading one frame) are environment parameters of the model, explicit guards of `tick`; the scenarios run with small ones",
+            "a peer that answers pings gives G <= P + round trip: that the library's own ping handler does answer is tied by the healthy-link scenarios against every server ping setting (F10), not by a theorem",
+            "the failing of pending calls and the start of the redial after the read failure are C02/C03's theorems over Jrpc.Corr (readerErr -> reconnBegin -> sweep); here they are observed at the proxy and the callers",
+            "time bounds are asserted as 4 x timeout + 100 ms at the callers; trace times (hook timestamps, microseconds) are compared with 3 ms slack",
+        ],
+        "timeout": 1500,
+    },
     "C15": {
         "lean_modules": ["JrpcProofs.Props.C15", "JrpcProofs.Props.C06", "JrpcProofs.Facts.Cancel", "JrpcProofs.Facts.Corr"],
         "assumptions": [
